@@ -388,47 +388,65 @@ theorem ser_aggregate_pointwise_every_level (S : StrFns) (c : Cls) (ov : Option 
   c07_aggregate_agrees S c.own c.fields ov camel hw
 
 /-- inside `regionOK` the deserializer's aggregate of the top class is the shape list of its mapper list -/
-theorem deser_aggregate_shape (S : StrFns) (c : Cls) (ov : Option MDict) (h : regionOK S c ov = true) :
-    aggregate S false c.own c.fields ov false = shapeFields S (effList c.own ov false) c.fields := by
+theorem deser_aggregate_shape (S : StrFns) (c : Cls) (ov : Option MDict) (camel : Bool)
+    (h : regionOK S c ov camel = true) :
+    aggregate S false c.own c.fields ov camel = shapeFields S (effList c.own ov camel) c.fields := by
   simp only [regionOK, and_true_iff'] at h
   exact c07_foldAdd_base S c.fields _ h.1.1.1.2 h.1.1.2
 
-/-- **`Sync` is a theorem inside the region.**  `regionOK` is a decidable predicate on the class tree
-    and its mapper lists alone: plain mappers (enum mappers, dicts of string / `DoNotSerialize` values
-    without `"<field>._mapper"` entries) on the top class and on the classes nested directly in it, no
-    own mapper on classes nested deeper, every nested field mapped to a string key under which its
-    re-keyed nested entry is found, and no two re-keyed nested entries colliding in any round.  There
-    the level hypotheses `levelOK` (with `Sync`) follow at *every* depth from the demanded domain. -/
-theorem sync_in_region (S : StrFns) (c : Cls) (ov : Option MDict) (strict : Bool) (x : J)
-    (hreg : regionOK S c ov = true)
-    (h : rtCls S false (levelDomE S) c (aggregate S true c.own c.fields ov false) ov strict x = true) :
-    rtCls S false (levelOK S) c (aggregate S true c.own c.fields ov false) ov strict x = true := by
-  have hM := deser_aggregate_shape S c ov hreg
+/-- `_convert_to_camelcase` is idempotent on the driver's ASCII strings (its result has no underscore) -/
+theorem camel_idempotent_ascii (s : String) : asciiFns.camel (asciiFns.camel s) = asciiFns.camel s :=
+  c07_camelAscii_idem s
+
+/-- **`Sync` is a theorem inside the region.**  `regionOK` is a decidable predicate on the class tree,
+    its mapper lists and the `camel_case_convert` flag alone: plain mappers (enum mappers, dicts of
+    string / `DoNotSerialize` values without `"<field>._mapper"` entries) on the top class and on the
+    classes nested directly in it, no own mapper on classes nested deeper, every nested field mapped
+    to a string key under which its re-keyed nested entry is found, and no two re-keyed nested entries
+    colliding in any round.  There the level hypotheses `levelOK` (with `Sync`) follow at *every* depth
+    from the demanded domain.  With `camel_case_convert` the deserializer applies `TO_CAMELCASE` once
+    more at every level; this is harmless because the conversion is idempotent (`hc`, proved for the
+    ASCII functions in `camel_idempotent_ascii`). -/
+theorem sync_in_region (S : StrFns) (c : Cls) (ov : Option MDict) (camel strict : Bool) (x : J)
+    (hc : camel = true → ∀ s, S.camel (S.camel s) = S.camel s)
+    (hreg : regionOK S c ov camel = true)
+    (h : rtCls S camel (levelDomE S) c (aggregate S true c.own c.fields ov camel) ov strict x = true) :
+    rtCls S camel (levelOK S) c (aggregate S true c.own c.fields ov camel) ov strict x = true := by
+  have hM := deser_aggregate_shape S c ov camel hreg
   simp only [regionOK, and_true_iff'] at hreg
   obtain ⟨⟨⟨⟨hw, hplain⟩, _⟩, hnod⟩, hnested⟩ := hreg
   cases x with
   | obj kvs =>
     simp only [rtCls, and_true_iff'] at h ⊢
     refine ⟨c07_level_of_lookups S _ _ strict kvs h.1
-      (fun p _ => (ser_deser_same_field_keys S c.own c.fields ov false p.1).symm), ?_⟩
+      (fun p _ => (ser_deser_same_field_keys S c.own c.fields ov camel p.1).symm), ?_⟩
     rw [hM] at h ⊢
-    exact c07_sync_fields S c.fields c.fields _ _ kvs hplain hnod
-      (c07_aggregate_agrees S c.own c.fields ov false hw) (fun g hg => hg)
-      (fun g hg => all_mem hnested hg) h.2
+    exact c07_sync_fields S camel hc c.fields c.fields _ _ _ kvs (c07_camelRel_top camel c.own ov) hplain hnod
+      (c07_aggregate_agrees S c.own c.fields ov camel hw) (fun g hg => hg) hnested h.2
   | null => simp [rtCls] at h
   | int i => simp [rtCls] at h
   | str s => simp [rtCls] at h
   | arr xs => simp [rtCls] at h
 
-/-- **Round trip, unconditional on the region, any depth.**  For every class tree and mapper lists in
-    `regionOK` and every instance inside the demanded domain at every level (every field resolved to
-    a string key or an absent `DoNotSerialize` field, no dotted key, populated keys distinct and not an
-    absent field's key): `deserialize(serialize(x)) = x`, strict or not.  No `Sync` hypothesis. -/
-theorem mapper_round_trip_region (S : StrFns) (c : Cls) (ov : Option MDict) (strict : Bool) (x : J)
-    (hreg : regionOK S c ov = true)
-    (h : rtCls S false (levelDomE S) c (aggregate S true c.own c.fields ov false) ov strict x = true) :
-    deser S false c ov strict (serialize S false c ov x) = .ok x :=
-  mapper_round_trip_serialize S false c ov strict x (sync_in_region S c ov strict x hreg h)
+/-- **Round trip, unconditional on the region, any depth, `camel_case_convert` on or off.**  For every
+    class tree and mapper lists in `regionOK` and every instance inside the demanded domain at every
+    level (every field resolved to a string key or an absent `DoNotSerialize` field, no dotted key,
+    populated keys distinct and not an absent field's key): `deserialize(serialize(x)) = x`, strict or
+    not.  No `Sync` hypothesis. -/
+theorem mapper_round_trip_region (S : StrFns) (c : Cls) (ov : Option MDict) (camel strict : Bool) (x : J)
+    (hc : camel = true → ∀ s, S.camel (S.camel s) = S.camel s)
+    (hreg : regionOK S c ov camel = true)
+    (h : rtCls S camel (levelDomE S) c (aggregate S true c.own c.fields ov camel) ov strict x = true) :
+    deser S camel c ov strict (serialize S camel c ov x) = .ok x :=
+  mapper_round_trip_serialize S camel c ov strict x (sync_in_region S c ov camel strict x hc hreg h)
+
+/-- the same for the driver's string functions: no hypothesis on the strings left -/
+theorem mapper_round_trip_region_ascii (c : Cls) (ov : Option MDict) (camel strict : Bool) (x : J)
+    (hreg : regionOK asciiFns c ov camel = true)
+    (h : rtCls asciiFns camel (levelDomE asciiFns) c (aggregate asciiFns true c.own c.fields ov camel)
+      ov strict x = true) :
+    deser asciiFns camel c ov strict (serialize asciiFns camel c ov x) = .ok x :=
+  mapper_round_trip_region asciiFns c ov camel strict x (fun _ => camel_idempotent_ascii) hreg h
 
 /-! ### wrapper validation -/
 
@@ -560,14 +578,17 @@ def rgInst : J :=
     inside the demanded domain, the grand-nested key is the upper-cased one; and the class tree of
     the open finding `nested-resync` (own rename two levels down) is outside the region -/
 theorem region_example :
-    regionOK upFns rgTop none = true
+    regionOK upFns rgTop none false = true
     ∧ rtCls upFns false (levelDomE upFns) rgTop (aggregate upFns true rgTop.own rgTop.fields none false)
         none false rgInst = true
     ∧ isOkEq (.ok (serialize upFns false rgTop none rgInst))
         (fun d => match d with
           | .obj [("mm", .arr [.obj [("gg", .obj [("a", .int 1)]), ("Z", .int 3)], _])] => true
           | _ => false) = true
-    ∧ regionOK upFns topCls none = false := by
+    ∧ regionOK upFns topCls none false = false
+    ∧ regionOK upFns rgTop none true = true
+    ∧ rtCls upFns true (levelDomE upFns) rgTop (aggregate upFns true rgTop.own rgTop.fields none true)
+        none true rgInst = true := by
   decide
 
 end Typedpy.C07
